@@ -147,3 +147,7 @@ func vpH_C09_px() {
 }
 
 var _ = peer.ID("")
+
+// negative_graft: a GRAFT from a negatively scored (or direct / backed-off) peer is refused with a PRUNE that carries no
+// peer exchange, and never admitted (the admission harness of C07, run with peer exchange enabled).
+func vpH_C09_negative_graft() { vpH_C07_handleGraft() }
